@@ -376,7 +376,16 @@ impl<'a> G<'a> {
         }
     }
     fn name_expr(&mut self) { match self.u.below(6) { 5 => { self.feat("name-expr-call"); self.p("%"); let m = self.pick(CALLNAMES); self.p(m); self.p("(a)"); if self.u.coin(1, 2) { self.p("_s"); } } 0 | 1 => { let v = self.pick(MVARS); self.p(v); } 2 => { let v = self.pick(MVARS); self.p(v); self.mvar(false); } 3 => { self.mvar(false); } _ => { let v = self.pick(MVARS); self.p(v); self.p("_"); self.p("&i."); self.p("x"); } } }
-    fn let_stmt(&mut self) { self.feat("let"); self.pk("%let"); self.rws(); self.name_expr(); self.ows(); self.del_mark("=", "ASSIGN", "MissingExpectedAssign", false); self.ows(); self.text_expr(); self.mark(";", MK::Delim("SEMI", false)); }
+    fn let_stmt(&mut self) { self.feat("let"); self.pk("%let"); self.rws(); self.name_expr(); self.ows(); self.del_mark("=", "ASSIGN", "MissingExpectedAssign", false); if self.u.coin(1, 6) { self.quote_call(); } else { self.ows(); } self.text_expr(); self.mark(";", MK::Delim("SEMI", false)); }
+    // a macro quoting function directly after the '=' (it cannot continue a name expression, so a left-out '=' is still
+    // diagnosed right after the name even without a blank in its place)
+    fn quote_call(&mut self) {
+        self.feat("quote-call-after-assign");
+        let nm = self.pick(&["%str", "%nrstr", "%quote", "%nrquote", "%bquote", "%nrbquote", "%superq", "%BQUOTE", "%Str", "%NRBQUOTE", "%SuperQ"]);
+        self.p(nm);
+        let hidden = nm.to_ascii_lowercase() == "%str" || nm.to_ascii_lowercase() == "%nrstr";
+        self.mark("(", MK::Delim("LPAREN", hidden)); let w = self.pick(&["b", "a b", "x1", "v"]); self.p(w); self.tp(); self.mark(")", MK::Delim("RPAREN", hidden));
+    }
     fn put_stmt(&mut self) { self.feat("put"); self.pk("%put"); self.rws(); self.text_expr(); self.mark(";", MK::Delim("SEMI", false)); }
     fn comment_stmt(&mut self) { self.feat("comment-stmt"); match self.u.below(4) { 0 => self.p("* a comment, with 'stuff;"), 1 => self.p("%* macro comment 'with ; quoted' \"and ;\";"), 2 => self.p("/* block ; comment */"), _ => self.p("*;") } }
     fn datalines_block(&mut self) { if self.in_macro > 0 { return self.open_stmt(); } self.feat("datalines"); if !self.out.trim_end_matches(|c: char| c.is_whitespace()).ends_with(';') && !self.out.is_empty() { self.p(";"); } match self.u.below(4) { 0 => self.p("datalines;\n1 2 3\nabc def\n;"), 1 => self.p("cards ;\n;"), 2 => self.p("DATALINES4;\na;b;;;c\n'x\n;;;;"), _ => self.p("lines;\n%notmacro &x /* not comment\n;") } }
